@@ -663,7 +663,13 @@ func (x *Runner) Workload(rng *verifkit.Rand, n int) {
 		}
 		tx.Mode = "blind"
 		var s []byte
-		switch rng.Intn(5) {
+		switch rng.Intn(7) {
+		case 5, 6: // round 5: the first bytes belong to another proxy protocol or SOCKS version
+			var name string
+			name, s = foreignOpening(rng, x.T, x.S)
+			tx.Methods, tx.CredKind, tx.User, tx.Pass = nil, "none:"+name, "", ""
+			x.R.Add("foreign_protocol_transcripts", 1)
+			x.R.Add("foreign_"+name, 1)
 		case 0: // skip the handshake altogether
 			tx.Methods = nil
 			s = request(tx.Cmd, x.T)
@@ -686,6 +692,56 @@ func (x *Runner) Workload(rng *verifkit.Rand, n int) {
 			s = s[:tx.Cut]
 		}
 		x.Run(tx, s)
+	}
+}
+
+// foreignOpening: a credential-less opening that is not a SOCKS5 greeting but asks, in its own
+// protocol, for the same CONNECT destination: SOCKS4 / SOCKS4a CONNECT and BIND (user-id empty,
+// arbitrary, or the NAME of a configured user: a name alone is no credential), HTTP CONNECT /
+// absolute-URI GET, and a SOCKS5-shaped greeting+request under another version byte.
+func foreignOpening(rng *verifkit.Rand, t *Target, s Setup) (string, []byte) {
+	host, port := "127.0.0.1", []byte{0, 80}
+	ip := []byte{127, 0, 0, 1}
+	d := t.ConnectDest
+	switch {
+	case len(d) == 7 && d[0] == 1:
+		ip, port = d[1:5], d[5:7]
+		host = net.IP(ip).String()
+	case len(d) > 4 && d[0] == 3 && len(d) == 2+int(d[1])+2:
+		host, port = string(d[2:2+int(d[1])]), d[len(d)-2:]
+	}
+	uid := ""
+	switch rng.Intn(3) {
+	case 1:
+		uid = rng.Token(6)
+	case 2:
+		if u := s.usable(); len(u) > 0 {
+			uid = verifkit.Pick(rng, u).Name
+		}
+	}
+	portN := int(port[0])<<8 | int(port[1])
+	switch rng.Intn(7) {
+	case 0:
+		b := append([]byte{4, 1}, port...)
+		b = append(b, ip...)
+		return "socks4-connect", append(append(b, uid...), 0)
+	case 1:
+		b := append([]byte{4, 1}, port...)
+		b = append(b, 0, 0, 0, byte(1+rng.Intn(255)))
+		b = append(append(b, uid...), 0)
+		return "socks4a-connect", append(append(b, host...), 0)
+	case 2:
+		b := append([]byte{4, 2}, port...)
+		b = append(b, ip...)
+		return "socks4-bind", append(append(b, uid...), 0)
+	case 3:
+		return "http-connect", []byte(fmt.Sprintf("CONNECT %s:%d HTTP/1.1\r\nHost: %s:%d\r\n\r\n", host, portN, host, portN))
+	case 4:
+		return "http-get", []byte(fmt.Sprintf("GET http://%s:%d/ HTTP/1.1\r\nHost: %s:%d\r\n\r\n", host, portN, host, portN))
+	default:
+		v := verifkit.Pick(rng, []byte{0, 1, 3, 4, 6, 0x7f, 0xff})
+		b := append([]byte{v, 1, 0}, v, 1, 0)
+		return "socks5-shape-other-version", append(b, d...)
 	}
 }
 
